@@ -616,6 +616,7 @@ class LinAnalysis:
         self.track_wraps = False   # unsigned results that may have wrapped are resolved once a later test decides it
         self.taint_exact = bool(os.environ.get("LIN_TAINT"))   # a failure behind a join counts as exact when the join lost nothing in the obligation's cone
         self.indirect_hook = None  # hook(an, st, fr, call, args) at calls through function pointers without a contract
+        self.view_hook = None      # hook(an, st, fr, construct, args) where an object is constructed from evaluated arguments
         self.exit_hook = None      # hook(an, st, fr, head, from block, to block) on every edge that leaves a loop
         self.noeffect = 0          # > 0 while a condition is read again for refinement: steps and assignments are not repeated
         self.peel = False          # first iteration of a loop is analysed on its own (the entry state is not joined into the head state)
@@ -1248,6 +1249,11 @@ class LinAnalysis:
                             st.add(hi - r)
                             break
             return r
+        if k == "construct" and self.view_hook is not None:
+            # a view object built from (address, count): what the caller may read through it
+            args = [self.ev(a, st, fr) for a in e.get("args", [])]
+            self.view_hook(self, st, fr, e, args)
+            return None
         if k == "call":
             # calls are evaluated as CFG elements by transfer(); reaching one here means it was not cached
             return self.fresh_of_type(st, f, e.get("t"))
